@@ -3985,10 +3985,10 @@ class HCI_Write_Secure_Connections_Host_Support_Command(
 
 
 # -----------------------------------------------------------------------------
-@HCI_SyncCommand.sync_command(HCI_StatusReturnParameters)
+@HCI_SyncCommand.sync_command(HCI_StatusAndConnectionHandleReturnParameters)
 @dataclasses.dataclass
 class HCI_Write_Authenticated_Payload_Timeout_Command(
-    HCI_SyncCommand[HCI_StatusReturnParameters]
+    HCI_SyncCommand[HCI_StatusAndConnectionHandleReturnParameters]
 ):
     '''
     See Bluetooth spec @ 7.3.94 Write Authenticated Payload Timeout Command
